@@ -370,7 +370,9 @@ theorem iterations_succ (fuel : Nat) (r : Recipe) (k : Nat) (c : Ctx) (cont : Bo
        | .ok (c1, s1) =>
          match notFilled s1 with
          | _ :: _ => .error (.recipe "reference not fulfilled")
-         | [] => iterations fuel r k c1 true (resetSlots s1)) := by
+         | [] =>
+           iterations fuel r k { c1 with vars := c1.vars.map (fun p => (p.1, freezeVal s1 p.2)) } true
+             (resetSlots s1)) := by
   simp only [iterations]
   rfl
 
@@ -400,6 +402,6 @@ theorem iterations_add_succ (fuel : Nat) (r : Recipe) (k b : Nat)
       simp only
       cases notFilled s1 with
       | cons a l => rfl
-      | nil => exact ih c1 true (resetSlots s1)
+      | nil => exact ih _ true (resetSlots s1)
 
 end SnowModel.L2
